@@ -310,6 +310,52 @@ def run(fail):
 ''', [("run", [(0,), (1,), (2,), (3,), (4,), (5,)])])
 
 
+# ---- decide / act: a verdict is bound, then tested
+case('''
+def _put(d, entry_key, entry_val):
+    d[entry_key] = entry_val
+    return d
+
+def _target(a, b):
+    if isinstance(a, dict):
+        return a, b
+    if isinstance(b, dict) and isinstance(a, list) and len(a) == 2:
+        return b, a
+    return None
+
+def run(a, b):
+    target = _target(a, b)
+    if target is not None:
+        return _put(target[0], *target[1])
+    return [a, b]
+
+def run2(x):
+    mode = "none"
+    if x > 10:
+        mode = "big"
+    elif x > 5:
+        mode = "mid"
+    out = []
+    if mode in ("big", "mid"):
+        out.append(mode)
+    else:
+        out.append("small")
+    out.append(x)
+    return out
+
+def run3(x, log):
+    ok = False
+    if x:
+        log.append("seen")
+        ok = True
+    if not ok:
+        log.append("refused")
+        return None
+    log.append("done")
+    return x
+''', [("run", [({}, [1, 2]), ([1, 2], {}), ([1, 2, 3], {}), (1, 2), ({1: 0}, [1, 5])]), ("run2", [(1,), (6,), (11,)]), ("run3", [(0, []), (3, [])])])
+
+
 def outcome(ns, fn, args):
     import copy
     try:
